@@ -16,6 +16,7 @@ func init() {
 	register(&PropDef{ID: "C18", Title: "Environment values reach sandbox shells verbatim, with no shell interpretation", Rules: rulesC18,
 		Explanation: "Decided (structural necessary conditions, both script builders — dcmd.InitSequence and sshsb.(*SSHSandbox).initSequence): R1 the string that carries an environment value is rebuilt from the SSA concatenation as a template of constant pieces and symbolic holes (KEY, TAG, VALUE) and lexed as shell: VALUE must be the whole body of a here-document whose delimiter word is quoted (so the shell performs no expansion in the body), whose delimiter contains TAG, which starts right after the delimiter line and is closed by a line consisting of the same delimiter; VALUE may not appear anywhere else (e.g. inside a format string); R2 TAG derives from varutil.RandString with a constant length >= 8 evaluated inside the builder on every call (not a package-level or cached value), and the opening and closing delimiter are the same value; R3 every store into the environment map is dominated by a nil result of the key validator for that key (Set) or for the whole map being copied (SetAll), the validator errors exactly when the pattern does not match, and the pattern — parsed from the source constant with regexp/syntax — is anchored at both ends with a language included in [A-Za-z_][A-Za-z0-9_]*. " +
 			"R2 also: varutil.RandString does not create or seed its generator on every call (no rand.NewSource/Seed/New inside it): a per-call clock seed makes the terminator predictable. " +
+			"Added in round 6: R3 accepts a validator that collects every failure (append or a collector call) and returns the aggregate of the list, also in two phases (failing keys collected, then validated again for the messages) when validKey is shown to depend on its argument alone (no writes, no mutable reads, only pure callees). " +
 			"NOT decided: what /bin/sh does with the script beyond the POSIX rule used in R1 (a quoted delimiter disables expansion); values containing a line equal to the random delimiter (probabilistic argument, R2).",
 	})
 }
@@ -798,6 +799,11 @@ func ruleEnvNames(c *Ctx) {
 				okv = true
 			}
 		}
+		// or, in two phases: the keys that fail are first collected, then validated again to build the
+		// messages - sound if the validator's verdict depends on its argument alone
+		if !okv && nilDeterministic(validKey, 0) {
+			okv = twoPhaseValidation(valid, validKey)
+		}
 		c.Check(okv, "R3", "envs.(*Environments).valid checks every key", valid.Pos(), "validKey for each key of the map; first failure returned", "valid does not check every key of the map (or drops the failure)")
 	}
 	// validKey: error iff the pattern does not match
@@ -1035,6 +1041,192 @@ func loopValidatesAll(f *ssa.Function, m ssa.Value, validKey *ssa.Function, poin
 func inSameLoop(f *ssa.Function, header, b *ssa.BasicBlock) bool {
 	for _, e := range loopBackEdges(f) {
 		if e[1] == header && header.Dominates(b) && reachesBlock(b, e[0]) {
+			return true
+		}
+	}
+	return false
+}
+
+// nilDeterministic: whether fn returns nil depends only on its (non-receiver) arguments: it writes
+// nothing outside itself, reads no mutable state (only parameters, locals and package variables
+// that are assigned in init only), and calls nothing but functions of the same kind, error
+// constructors and a short list of pure standard-library functions.
+var nilDetMemo = map[*ssa.Function]int{}
+
+func nilDeterministic(fn *ssa.Function, depth int) bool {
+	if fn == nil || fn.Blocks == nil || depth > 3 {
+		return false
+	}
+	if r, ok := nilDetMemo[fn]; ok {
+		return r == 1
+	}
+	nilDetMemo[fn] = 2
+	ok := true
+	pureStd := func(q string) bool {
+		switch {
+		case strings.HasPrefix(q, "strings."), strings.HasPrefix(q, "strconv."), strings.HasPrefix(q, "unicode."), strings.HasPrefix(q, "unicode/utf8."):
+			return true
+		case strings.HasPrefix(q, "regexp.(Regexp).Match"), strings.HasPrefix(q, "regexp.(Regexp).Find"):
+			return true
+		case q == "fmt.Sprintf", q == "fmt.Errorf", q == "fmt.Sprint", q == "errors.New":
+			return true
+		}
+		return false
+	}
+	initOnlyGlobal := func(g *ssa.Global) bool {
+		if g.Pkg == nil {
+			return false
+		}
+		okG := true
+		for _, m := range g.Pkg.Members {
+			f2, isFn := m.(*ssa.Function)
+			if !isFn {
+				continue
+			}
+			for _, h := range withClosures(f2) {
+				eachInstr(h, func(_ *ssa.BasicBlock, _ int, in ssa.Instruction) {
+					if st, isSt := in.(*ssa.Store); isSt && st.Addr == ssa.Value(g) && f2.Name() != "init" {
+						okG = false
+					}
+				})
+			}
+		}
+		return okG
+	}
+	eachInstr(fn, func(_ *ssa.BasicBlock, _ int, in ssa.Instruction) {
+		switch x := in.(type) {
+		case *ssa.Store:
+			if _, local := x.Addr.(*ssa.Alloc); !local {
+				if ia, isIA := x.Addr.(*ssa.IndexAddr); isIA {
+					if _, localArr := ia.X.(*ssa.Alloc); localArr {
+						return // filling the array of a variadic call
+					}
+				}
+				ok = false
+			}
+		case *ssa.MapUpdate, *ssa.Send, *ssa.Go, *ssa.Defer:
+			ok = false
+		case *ssa.UnOp:
+			if x.Op == token.MUL {
+				switch y := x.X.(type) {
+				case *ssa.Global:
+					if !initOnlyGlobal(y) {
+						ok = false
+					}
+				case *ssa.FieldAddr:
+					ok = false // state of the receiver or of an argument object
+				}
+			}
+			if x.Op == token.ARROW {
+				ok = false
+			}
+		case *ssa.Call:
+			if _, isB := x.Call.Value.(*ssa.Builtin); isB {
+				return
+			}
+			cal := x.Call.StaticCallee()
+			if cal == nil {
+				ok = false
+				return
+			}
+			q := qualName(cal)
+			switch {
+			case pureStd(q):
+			case strings.Contains(q, "/varutil/goaterr."):
+			case cal.Pkg == fn.Pkg && nilDeterministic(cal, depth+1):
+			default:
+				ok = false
+			}
+		}
+	})
+	if ok {
+		nilDetMemo[fn] = 1
+	}
+	return ok
+}
+
+// twoPhaseValidation: valid() ranges over the map, calls the validator for every key and, where it
+// fails, appends the key to a local slice (on every way round the loop: validator nil, or key
+// appended); afterwards it ranges over that slice, validates each element again and collects the
+// results into the list whose aggregate it returns.
+func twoPhaseValidation(valid, validKey *ssa.Function) bool {
+	vf := factsFor(valid)
+	calls := CallsTo(valid, qualName(validKey))
+	if len(calls) < 2 {
+		return false
+	}
+	// phase 1: a call on the map's key whose failing edge appends that key
+	var coll *ssa.Call // the append of the key
+	for _, ci := range calls {
+		c1, _ := ci.Instr.(*ssa.Call)
+		if c1 == nil {
+			continue
+		}
+		keyArg := resolve(c1.Call.Args[len(c1.Call.Args)-1])
+		ex, isEx := keyArg.(*ssa.Extract)
+		if !isEx {
+			continue
+		}
+		if _, isNext := ex.Tuple.(*ssa.Next); !isNext || ex.Index != 1 {
+			continue
+		}
+		eachInstr(valid, func(b *ssa.BasicBlock, _ int, in ssa.Instruction) {
+			app, ok := in.(*ssa.Call)
+			if !ok {
+				return
+			}
+			if bi, ok := app.Call.Value.(*ssa.Builtin); !ok || bi.Name() != "append" || len(app.Call.Args) != 2 {
+				return
+			}
+			for _, el := range appendedElemsOfCall(app) {
+				if resolve(el) == keyArg && vf.KnownNil(b, c1, false) {
+					coll = app
+				}
+			}
+		})
+		if coll == nil {
+			continue
+		}
+		// every way round the first loop: verdict nil, or the key was collected
+		okLoop := true
+		for _, e := range loopBackEdges(valid) {
+			if !reachesBlock(c1.Block(), e[0]) && c1.Block() != e[0] {
+				continue
+			}
+			if !inSameLoop(valid, e[1], c1.Block()) {
+				continue
+			}
+			if knownNilIn(factsOnEdge(vf, e[0], e[1]), c1, true) {
+				continue
+			}
+			if !(coll.Block() == e[0] || coll.Block().Dominates(e[0])) {
+				okLoop = false
+			}
+		}
+		if !okLoop {
+			coll = nil
+			continue
+		}
+		break
+	}
+	if coll == nil {
+		return false
+	}
+	// phase 2: a call on an element of the collected slice whose result is collected and aggregated
+	for _, ci := range calls {
+		c2, _ := ci.Instr.(*ssa.Call)
+		if c2 == nil {
+			continue
+		}
+		arg := c2.Call.Args[len(c2.Call.Args)-1]
+		elems := appendedElems(arg)
+		fromColl := false
+		for _, el := range elems {
+			if el.at == ssa.Instruction(coll) {
+				fromColl = true
+			}
+		}
+		if fromColl && inLoop(valid, c2.Block()) && accumulatedAndReported(valid, c2) {
 			return true
 		}
 	}
